@@ -67,7 +67,7 @@ var (
 	realEnvs [2]*realEnv
 )
 
-func realCaseCount() int { return 2 * perEnvReal * run.N(2, 10) }
+func realCaseCount() int { return 2 * perEnvReal * run.N(3, 12) }
 
 func combo(j int) (pe, pc, ve, vc bool) { return j&1 != 0, j&2 != 0, j&4 != 0, j&8 != 0 }
 
